@@ -733,7 +733,7 @@ def extra_phase(pid, tier, seed):
     root = os.path.join(vc.BUILD, "tmp", "%d-inproc" % os.getpid())
     shutil.rmtree(root, ignore_errors=True)
     nproc = vc.NCPU
-    runs = 60000 if tier == "quick" else 1500000
+    runs = 60000 if tier == "quick" else 600000
     procs = []
     for i in range(nproc):
         d = os.path.join(root, str(i))
